@@ -300,7 +300,11 @@ class Exec(object):
                 # (only holders that exist at that point are constrained: what an unallocated address "holds" is arbitrary,
                 #  which is how the contents of objects allocated by callees are modelled)
                 if bound is not None:
-                    self.ctx.assume(forall(vs, implies(lt(a, bound), lt(v, bound)), [v]))
+                    # (holders: objects that exist at that point; field and element addresses - negative - are left
+                    #  out because the object they belong to may be one a callee allocated later)
+                    self.ctx.assume(forall(vs, and_(lt(NEGFAR, v), implies(self.existed(a, bound), self.existed_v(v, bound))), [v]))
+                else:
+                    self.ctx.assume(forall(vs, lt(NEGFAR, v), [v]))
 
     def valid_header_heaps(self, st, hs, is_slice):
         """hs: dict part->heap term for a slice/string header stored in field heaps"""
@@ -327,7 +331,7 @@ class Exec(object):
             body = and_(lt(NEGFAR, g('arr')), le(ZERO, g('off')), le(ZERO, g('len')), le(add(g('off'), g('len')), I(MAXLEN)))
         bound = self.ctx.heap_bound.get(bases['arr'].val)
         if bound is not None:
-            body = and_(body, implies(lt(p, bound), lt(g('arr'), bound)))
+            body = and_(body, implies(self.existed(p, bound), self.existed_v(g('arr'), bound)))
         self.ctx.assume(forall([p], body, [g('len')]))
         self.ctx.assume(forall([p], body, [g('arr')]))
         if is_slice:
@@ -415,6 +419,25 @@ class Exec(object):
     def addr_range(self, e, far):
         return lt(e, NEGFAR) if far else and_(lt(NEGFAR, e), lt(e, ZERO))
 
+    def existed_v(self, v, bound):
+        """an address value that was already around at `bound`: below it, and - for a field or element address -
+        inside an object allocated before it"""
+        return and_(lt(v, bound), implies(lt(v, ZERO), lt(self.root(v), bound)))
+
+    def existed(self, a, bound):
+        """the object that address a lies in was allocated before `bound`"""
+        return or_(and_(le(ZERO, a), lt(a, bound)), and_(lt(a, ZERO), lt(self.root(a), bound)))
+
+    def root(self, a):
+        """the allocated object an address lies in: itself for object addresses (>= 0), the enclosing object's
+        root for field and element addresses"""
+        self.ctx.declare_fun('root', (INT,), INT)
+        if 'root' not in self.ctx.assumptions:
+            self.ctx.assumptions.add('root')
+            x = const('x!', INT)
+            self.ctx.assume(forall([x], implies(le(ZERO, x), eq(app('root', (x,), INT), x)), [app('root', (x,), INT)]))
+        return app('root', (a,), INT)
+
     def term_is_far(self, a):
         if a.op == 'const':
             return a.val in getattr(self.ctx, 'private_g', ())
@@ -438,7 +461,9 @@ class Exec(object):
             self.ctx.declare_fun(fn_ + '.i', (INT,), INT)
             x, y = const('x!', INT), const('y!', INT)
             e = app(fn_, (x, y), INT)
-            self.ctx.assume(forall([x, y], and_(eq(app(fn_ + '.a', (e,), INT), x), eq(app(fn_ + '.i', (e,), INT), y), self.addr_range(e, far)), [e]))
+            self.root(ZERO)
+            self.ctx.assume(forall([x, y], and_(eq(app(fn_ + '.a', (e,), INT), x), eq(app(fn_ + '.i', (e,), INT), y), self.addr_range(e, far),
+                                                eq(app('root', (e,), INT), app('root', (x,), INT))), [e]))
         return app(fn_, (a, i), INT)
 
     def subaddr(self, stid, fname, p, far=None):
@@ -456,7 +481,8 @@ class Exec(object):
             self.ctx.declare_fun(fn_ + '~', (INT,), INT)
             x = const('x!', INT)
             e = app(fn_, (x,), INT)
-            self.ctx.assume(forall([x], and_(eq(app(fn_ + '~', (e,), INT), x), self.addr_range(e, far)), [e]))
+            self.root(ZERO)
+            self.ctx.assume(forall([x], and_(eq(app(fn_ + '~', (e,), INT), x), self.addr_range(e, far), eq(app('root', (e,), INT), app('root', (x,), INT))), [e]))
         return app(fn_, (p,), INT)
 
     def is_far(self, a):
@@ -698,7 +724,7 @@ class Exec(object):
             if valid:
                 c.assume(and_(lt(NEGFAR, a), le(ZERO, o), le(ZERO, l), le(add(o, l), I(MAXLEN))))
                 if bound_t is not None:
-                    c.assume(lt(a, bound_t))
+                    c.assume(self.existed_v(a, bound_t))
             return StrV(a, o, l)
         if self.is_bool(tid):
             return c.fresh(prefix, BOOL)
@@ -715,7 +741,7 @@ class Exec(object):
             if valid:
                 c.assume(lt(NEGFAR, t))
                 if bound_t is not None:
-                    c.assume(lt(t, bound_t))
+                    c.assume(self.existed_v(t, bound_t))
             return PtrV(t, self.U(tid)['elem'])
         if k in ('map', 'chan', 'func', 'interface'):
             t = c.fresh(prefix, INT)
@@ -730,7 +756,7 @@ class Exec(object):
                 c.assume(and_(lt(NEGFAR, a), le(ZERO, o), le(ZERO, l), le(l, cp), le(add(o, cp), I(MAXLEN))))
                 c.assume(implies(eq(a, ZERO), eq(cp, ZERO)))
                 if bound_t is not None:
-                    c.assume(lt(a, bound_t))
+                    c.assume(self.existed_v(a, bound_t))
             return SliceV(a, o, l, cp, self.U(tid)['elem'])
         if k == 'struct':
             return StructV(tid, dict((f['name'], self.fresh_value(prefix + '.' + f['name'], f['type'], valid, bound)) for f in self.struct_fields(tid)))
